@@ -69,6 +69,7 @@ func (w *World) isVee(id int) bool {
 func (s *Slots) Echo(str string) string         { return "echo:" + str }
 func (s *Slots) Pick(str string, b bool) string { return str + ":" + strconv.FormatBool(b) }
 func (s *Slots) Greet() string                  { return "hi:" + s.Str }
+func (s *Slots) HTMLID() string                 { return "html:" + s.Str }
 func (s *Slots) Flip(b bool) bool               { return !b }
 func (s *Slots) Swap(b bool, str string) string { return str + "/" + strconv.FormatBool(b) }
 func (s *Slots) Peer() interface{}              { return s.Obj }
@@ -147,7 +148,7 @@ func slotFor(c *Case, typeName, field string) string {
 }
 
 // computedSlots are backed by methods; the rest by struct fields.
-var computedSlots = map[string]bool{"echo": true, "pick": true, "greet": true, "flip": true, "swap": true, "peer": true, "peers": true, "count": true, "risky": true}
+var computedSlots = map[string]bool{"echo": true, "pick": true, "greet": true, "flip": true, "swap": true, "peer": true, "peers": true, "count": true, "risky": true, "htmlid": true}
 
 // universeSlotOf is set per world so that UniverseCompute can translate renamed fields.
 var universeSlotOf func(typeName, field string) string
@@ -170,6 +171,8 @@ func UniverseCompute(n *hx.Node, fd *hx.Field, args map[string]interface{}) (hx.
 		return hx.Str(str + ":" + strconv.FormatBool(b)), true
 	case "greet":
 		return hx.Str("hi:" + n.F["__str"].S), true
+	case "htmlid":
+		return hx.Str("html:" + n.F["__str"].S), true
 	case "flip":
 		return hx.Bool(!b), true
 	case "swap":
